@@ -39,17 +39,24 @@ fn gen_vals(rng: &mut Rng, ts: usize, n: usize) -> Vec<u64> {
 pub fn run(args: &Args, sink: &mut Sink, rng: &mut Rng) {
     // ---------------- inline
     let mut s_in = Stream::new("bitpack_inline", REQ, "chk_inline_compress", "N * list N", "list N * list chunk");
+    let mut b_in = Budget::new(args, 110);
     s_in.shard = 6;
     let mut shapes: Vec<(usize, usize)> = vec![];
-    for ts in [1usize, 2, 4, 8] {
-        for n in [1usize, 1023, 1024, 1025, 2048] {
-            if ts == 8 || n != 2048 {
+    // one boundary length per word size in the quick tier (rotating with the seed), all in thorough
+    let edge = [1usize, 1023, 1024, 1025, 2048, 2049];
+    for (i, ts) in [1usize, 2, 4, 8].into_iter().enumerate() {
+        if args.thorough() {
+            for n in edge {
                 shapes.push((ts, n));
             }
+        } else {
+            shapes.push((ts, 1));
+            shapes.push((ts, edge[1 + (args.seed as usize + i) % 5]));
         }
     }
-    for _ in 0..args.vol(10, 300) {
-        shapes.push((*rng.pick(&[1usize, 2, 4, 8]), pick_len(rng, if args.thorough() { 5000 } else { 2600 })));
+    for _ in 0..args.vol(14, 300) {
+        let n = if rng.chance(2, 3) && !args.thorough() { rng.range(2, 300) as usize } else { pick_len(rng, if args.thorough() { 5000 } else { 2300 }) };
+        shapes.push((*rng.pick(&[1usize, 2, 4, 8]), n));
     }
     for (ts, n) in shapes {
         let vals = gen_vals(rng, ts, n);
@@ -62,7 +69,7 @@ pub fn run(args: &Args, sink: &mut Sink, rng: &mut Rng) {
         match &r {
             Ok(Ok((c, _))) => {
                 let words = if c.data.len() == 1 && c.data[0].len() % ts == 0 { from_bytes(c.data[0].as_ref(), ts) } else { vec![] };
-                s_in.push(format!("({}, {})", ts * 8, nlist(&vals)), format!("({}, {})", nlist(&words), coq_chunks(&c.chunks)), human.clone());
+                b_in.push(&mut s_in, format!("({}, {})", ts * 8, nlist(&vals)), format!("({}, {})", nlist(&words), coq_chunks(&c.chunks)), human.clone());
                 // limits: 8200-byte chunks of 64-bit data packed with 64 bits are a known breach of MAX_MINIBLOCK_BYTES
                 let breach = chunk_limit_breach(c, true);
                 let full64 = ts == 8 && vals.chunks(1024).any(|ch| ch.iter().fold(0u64, |a, x| a | x) >> 63 == 1);
@@ -82,6 +89,7 @@ pub fn run(args: &Args, sink: &mut Sink, rng: &mut Rng) {
 
     // ---------------- out of line
     let mut s_ool = Stream::new("bitpack_ool", REQ, "chk_ool_compress", "N * N * list N", "outcome (list N)");
+    let mut b_ool = Budget::new(args, 110);
     s_ool.shard = 6;
     let mut cases: Vec<(usize, u64, usize)> = vec![];
     for _ in 0..args.vol(28, 600) {
@@ -119,7 +127,7 @@ pub fn run(args: &Args, sink: &mut Sink, rng: &mut Rng) {
             Ok(Err(_)) => Err(false),
             Err(_) => Err(true),
         };
-        s_ool.push(format!("({}, {}, {})", bits, w, nlist(&vals)), coq::outcome(&out), human.clone());
+        b_ool.push(&mut s_ool, format!("({}, {}, {})", bits, w, nlist(&vals)), coq::outcome(&out), human.clone());
         match r {
             Ok(Ok(buf)) => {
                 let dec = OutOfLineBitpacking::new(w, bits);
@@ -135,6 +143,7 @@ pub fn run(args: &Args, sink: &mut Sink, rng: &mut Rng) {
 
     // ---------------- selection rules (default parameters)
     let mut s_sel = Stream::new("bitpack_select", REQ, "chk_bitpack_select", "N * list N", "bool * block_choice");
+    let mut b_sel = Budget::new(args, 60);
     s_sel.shard = 40;
     let strat = DefaultCompressionStrategy::new();
     for k in 0..args.vol(60, 1200) {
@@ -189,7 +198,7 @@ pub fn run(args: &Args, sink: &mut Sink, rng: &mut Rng) {
         };
         sink.count(&format!("select:{}", if uses_inline { "inline" } else { "value" }));
         sink.nontrivial(&format!("sel:{ts}:{n}:{w}:{:?}", &vals[..n.min(16)]));
-        s_sel.push(format!("({}, {})", bits, nlist(&vals)), format!("({}, {})", coq::b(uses_inline), choice), json!({"codec": "select", "ts": ts, "n": n, "w": w, "mini": mini, "block": choice}));
+        b_sel.push(&mut s_sel, format!("({}, {})", bits, nlist(&vals)), format!("({}, {})", coq::b(uses_inline), choice), json!({"codec": "select", "ts": ts, "n": n, "w": w, "mini": mini, "block": choice}));
     }
     sink.add(s_sel);
 }
